@@ -101,6 +101,8 @@ func (enc *encoder) encodeAny(anyField j5reflect.AnyField) error {
 			return err
 		}
 		jsonData = innerBytes
+	} else {
+		return fmt.Errorf("any type %q has neither j5 json nor proto content", val.TypeName)
 	}
 
 	enc.openObject()
